@@ -520,7 +520,8 @@ class Arrays(Sub):
     name = 'c05.arrays'
     rule = ('flat arrays of length 1..4 in each separator style are flat lists; {row;row} with comma- or backslash-'
             'separated rows of length 1..3 (at least one row of length >= 2) is the list of the two rows; 3..6 rows of 2 or 3 items are the list '
-            'of those rows; non-trivial = all')
+            'of those rows; two and three rows of width 2..3 with every present / absent pattern of the slots of each row: if accepted, one item per '
+            'slot in each row; non-trivial = all')
     min_cases = 20
     min_nontrivial = 20
 
@@ -536,11 +537,40 @@ class Arrays(Sub):
             for width in (2, 3):
                 for sep in (',', '\\'):
                     yield ['nrows', nrows, width, sep]
+        # empty slots inside the rows of a two- or three-row array: every present / absent pattern of each row
+        for nrows in (2, 3):
+            for width in (2, 3):
+                for pats in itertools.product(list(itertools.product((1, 0), repeat=width)), repeat=nrows):
+                    if all(all(p) for p in pats):
+                        continue
+                    for sep in (',', '\\'):
+                        yield ['rowblanks', [list(p) for p in pats], sep]
 
     def check(self, env, case):
         env.nt()
         items = ['1', '"b"', '3.5', 'TRUE', '-2', '6']
         vals = [1, 'b', 3.5, True, -2, 6]
+        if case[0] == 'rowblanks':
+            pats, sep = case[1:]
+            k = 0
+            rows_t, want = [], []
+            for p in pats:
+                rt, rv = [], []
+                for present in p:
+                    rt.append(str(10 + k) if present else '')
+                    rv.append(10 + k if present else None)
+                    k += 1
+                rows_t.append(sep.join(rt))
+                want.append(rv)
+            text = '{' + ';'.join(rows_t) + '}'
+            out = env.evo(text)
+            if out[0] == 'e':
+                env.note('rejected')
+                return None
+            env.note('accepted-with-blank')
+            if out != ['v', want]:
+                return fail('array %r is accepted but is %r; one item per slot (blank for an omitted one) in each row would be %r' % (text, out[1], want), want, out)
+            return None
         if case[0] == 'flat':
             n, sep = case[1], case[2]
             text = '{' + sep.join(items[:n]) + '}'
